@@ -89,6 +89,21 @@ func c08eqInts(a, b []int) bool {
 	return true
 }
 
+// TLC integers are 32-bit.  Legitimate scores stay far below 10^6 in absolute value (300 columns x a few
+// hundred per column); anything beyond +-2*10^6 is logged as +-2*10^6: a path through such a cell can never be
+// optimal and a sum that reaches such a value is not the score of any path.
+const c08Big = 2000000
+
+func c08clamp(v int) int {
+	if v > c08Big {
+		return c08Big
+	}
+	if v < -c08Big {
+		return -c08Big
+	}
+	return v
+}
+
 type c08Limiter struct {
 	mu   sync.Mutex
 	seen map[string]int
@@ -253,7 +268,7 @@ func dumpTableC08(env *Env) {
 		for x := range syms {
 			row := make([]int, len(syms))
 			for y := range syms {
-				row[y] = obialign.VerifPairScore(syms[x][0], byte(quals[x]), syms[y][0], byte(quals[y]), scale)
+				row[y] = c08clamp(obialign.VerifPairScore(syms[x][0], byte(quals[x]), syms[y][0], byte(quals[y]), scale))
 			}
 			t.Tab = append(t.Tab, row)
 		}
@@ -787,7 +802,7 @@ func (g *c08Gen) scenario(ev *c08Event) (a, b []byte) {
 		if lb > 300 {
 			lb = 300
 		}
-		o := 1 + g.rng.Intn(5)
+		o := c08min(1+g.rng.Intn(5), c08min(la, lb))
 		frag = mk(la + lb - o)
 		if g.rng.Intn(2) == 0 {
 			a, b = frag[:la], frag[len(frag)-lb:]
@@ -881,7 +896,7 @@ func runEventC08(ev *c08Event, wk *c08Worker) {
 	for x := range ev.Csa {
 		ev.Tab[x] = make([]int, len(ev.Csb))
 		for y := range ev.Csb {
-			ev.Tab[x][y] = obialign.VerifPairScore(ev.Csa[x][0], byte(ev.Cqa[x]), ev.Csb[y][0], byte(ev.Cqb[y]), scale)
+			ev.Tab[x][y] = c08clamp(obialign.VerifPairScore(ev.Csa[x][0], byte(ev.Cqa[x]), ev.Csb[y][0], byte(ev.Cqb[y]), scale))
 		}
 	}
 	ev.Gapp = obialign.VerifGapPenalty(gap, scale)
@@ -904,7 +919,7 @@ func runEventC08(ev *c08Event, wk *c08Worker) {
 		fail("PEAlign", r.Panic)
 		return
 	}
-	ev.Left, ev.Score, ev.Path, ev.Fc, ev.Over, ev.Fs1000 = c08b2i(r.Left), r.Score, r.Path, r.Fc, r.Over, int(r.Fs*1000)
+	ev.Left, ev.Score, ev.Path, ev.Fc, ev.Over, ev.Fs1000 = c08b2i(r.Left), c08clamp(r.Score), r.Path, r.Fc, r.Over, int(r.Fs*1000)
 	// the consensus of that very path (consumption is judged by TLC; a path that does not fit the reads makes
 	// the real BuildQualityConsensus panic or read outside the reads: reported through path.consumes)
 	cons := c08Consensus(c08seq("a", a, qa), c08seq("b", b, qb), r.Path, arena)
@@ -915,7 +930,7 @@ func runEventC08(ev *c08Event, wk *c08Worker) {
 		ev.Inplace == 1, ev.Fast == 1, ev.Rel == 1, arena, &wk.shifts)
 	if asm.Panic == "" && asm.HasAll {
 		ev.Os, ev.Oq = c08chars(asm.Seq), c08ints(asm.Qual)
-		ev.Mode, ev.Ali, ev.Sas, ev.Sbs, ev.Dir, ev.Ascore, ev.Amatch = asm.Mode, asm.Ali, asm.Sas, asm.Sbs, asm.Dir, asm.Score, asm.Match
+		ev.Mode, ev.Ali, ev.Sas, ev.Sbs, ev.Dir, ev.Ascore, ev.Amatch = asm.Mode, asm.Ali, asm.Sas, asm.Sbs, asm.Dir, c08clamp(asm.Score), asm.Match
 	}
 	if cons.Panic != "" || asm.Panic != "" {
 		// only a path that fits the reads obliges the consensus builders: TLC judges path.consumes first
